@@ -940,4 +940,430 @@ theorem respond_challenge_withDigest {A : List Char → Prop} {s : Sasl} {d : Op
   · rcases step with _ | n <;> simp [Sasl.respond, respondAnon] at h
 
 
+
+section handlers2
+variable {cfg : Cfg} {A : List Char → Prop} {H : Payload → Prop}
+
+theorem Live.congr {x y : Conn} (h : Live cfg A H x) (hp : ∀ e, e ∈ y.pending → e ∈ x.pending) (hs : y.sasl = x.sasl) :
+    Live cfg A H y where
+  pw_ok := fun res hm => by rw [hs]; exact h.pw_ok res (hp _ hm)
+  dg_ok := fun res u sec hm => h.dg_ok res u sec (hp _ hm)
+  sasl_ok := fun s hsm => h.sasl_ok s (by rw [← hs]; exact hsm)
+
+theorem inv_authSuccess (fresh : List Char) (c : Conn) (u : List Char) (v2 : Bool) (hu : A u)
+    (hl : c.closed = false → Live cfg A H c) :
+    ConnInv cfg A H (authSuccess fresh c (mkBare u cfg.domain) v2).conn := by
+  unfold authSuccess
+  simp only []
+  split
+  · unfold sasl2Authenticated
+    split
+    · exact ConnInv.of_closed rfl (fun _ => ⟨u, hu, Or.inl rfl⟩)
+    · exact ⟨fun _ => ⟨u, hu, Or.inr ⟨fresh, rfl⟩⟩, fun hc => (hl hc).congr (fun _ h => h) rfl⟩
+    · exact ⟨fun _ => ⟨u, hu, Or.inl rfl⟩, fun hc => (hl hc).congr (fun _ h => h) rfl⟩
+  · exact ⟨fun _ => ⟨u, hu, Or.inl rfl⟩, fun hc => (hl hc).congr (fun _ h => h) rfl⟩
+
+theorem checkCredentials_plain (c : Conn) (s : Sasl) (p : Payload) (hm : s.mech = .plain) :
+    checkCredentials cfg c s p = { c with pending := c.pending ++ [.pw (cfg.check s.user s.pass)] } := by
+  simp [checkCredentials, hm]
+
+theorem checkCredentials_digest (c : Conn) (s : Sasl) (u sec : List Char) (q : Bool) (hm : s.mech = .digest) :
+    checkCredentials cfg c s (.dresp u sec q) = { c with pending := c.pending ++ [.dg (cfg.digestOf s.user) u sec] } := by
+  simp [checkCredentials, hm]
+
+theorem inv_responseStep (fresh : List Char) (x : Conn) (v2 : Bool) (p : Payload) (h : ConnInv cfg A H x)
+    (hx : x.closed = false) (hev : H p) : ConnInv cfg A H (responseStep cfg fresh x v2 p).conn := by
+  have hl := h.live hx
+  unfold responseStep
+  split
+  · exact inv_disconnect _ _ h.jid_ok
+  · rename_i s hs
+    have hok := hl.sasl_ok s hs
+    simp only []
+    split
+    · rename_i hr
+      refine ⟨by simp only [checkCredentials_jid]; exact h.jid_ok, fun _ => ?_⟩
+      rcases respond_inputNeeded hr with ⟨hm, h0, u, pw, hp, hs1⟩ | ⟨hm, h1, hd, u, sec, hp, hs1⟩
+      · -- PLAIN object at step 0: no password reply can be outstanding for it
+        have hnopw : ∀ res, Pending.pw res ∉ x.pending := by
+          intro res hmem
+          obtain ⟨s', hs', _, hstep, _⟩ := hl.pw_ok res hmem
+          rw [hs] at hs'; injection hs' with hs'; subst hs'
+          omega
+        rw [hs1, checkCredentials_plain _ { s with user := u, pass := pw, step := 1 } _ hm]
+        refine ⟨?_, ?_, ?_⟩
+        · intro res hmem
+          simp only [List.mem_append, List.mem_cons, List.not_mem_nil, or_false] at hmem
+          rcases hmem with hmem | hmem
+          · exact absurd hmem (hnopw res)
+          · injection hmem with hmem
+            exact ⟨{ s with user := u, pass := pw, step := 1 }, rfl, hm, rfl, hmem, by rw [← hp]; exact hev⟩
+        · intro res u' sec hmem
+          simp only [List.mem_append, List.mem_cons, List.not_mem_nil, or_false] at hmem
+          rcases hmem with hmem | hmem
+          · exact hl.dg_ok res u' sec hmem
+          · cases hmem
+        · intro s' hs'
+          injection hs' with hs'; subst hs'
+          exact saslOk_plain _ hm
+      · have hnopw : ∀ res, Pending.pw res ∉ x.pending := by
+          intro res hmem
+          obtain ⟨s', hs', hpl, _⟩ := hl.pw_ok res hmem
+          rw [hs] at hs'; injection hs' with hs'; subst hs'
+          rw [hm] at hpl; cases hpl
+        rw [hs1, hp, checkCredentials_digest _ { s with user := u } _ _ _ hm]
+        refine ⟨?_, ?_, ?_⟩
+        · intro res hmem
+          simp only [List.mem_append, List.mem_cons, List.not_mem_nil, or_false] at hmem
+          rcases hmem with hmem | hmem
+          · exact absurd hmem (hnopw res)
+          · cases hmem
+        · intro res u' sec' hmem
+          simp only [List.mem_append, List.mem_cons, List.not_mem_nil, or_false] at hmem
+          rcases hmem with hmem | hmem
+          · exact hl.dg_ok res u' sec' hmem
+          · injection hmem with h1' h2' h3'
+            subst h1' h2' h3'
+            exact ⟨rfl, true, by rw [← hp]; exact hev⟩
+        · intro s' hs'
+          injection hs' with hs'; subst hs'
+          exact { step2 := fun _ h2 => by simp only [] at h2; omega
+                  step1 := fun _ _ => hd
+                  pos := fun _ => by simp only []; omega }
+    · rename_i hr
+      obtain ⟨hm, h2, hs1⟩ := respond_succeeded hok hr
+      rw [hs1]
+      apply inv_authSuccess fresh _ s.user v2 (hok.step2 hm h2)
+      intro _
+      refine ⟨?_, hl.dg_ok, ?_⟩
+      · intro res hmem
+        obtain ⟨s', hs', hpl, _⟩ := hl.pw_ok res hmem
+        rw [hs] at hs'; injection hs' with hs'; subst hs'
+        rw [hm] at hpl; cases hpl
+      · intro s' hs'
+        injection hs' with hs'; subst hs'
+        exact { step2 := fun _ h => by simp at h, step1 := fun _ h => by simp at h, pos := fun _ => by simp }
+    · exact inv_failClose _ _ _ h.jid_ok
+
+end handlers2
+
+
+section handlers3
+variable {cfg : Cfg} {A : List Char → Prop} {H : Payload → Prop}
+
+theorem inv_dgVerify (c0 : Conn) (s : Sasl) (d : Option (List Char)) (u sec : List Char)
+    (hj : c0.jid ≠ [] → ∃ u, A u ∧ JidOf cfg u c0.jid)
+    (hl : Live cfg A H c0) (hs : c0.sasl = some s)
+    (hu : d = some sec → A u) : ConnInv cfg A H (dgVerify c0 s d u sec).conn := by
+  have hok := hl.sasl_ok s hs
+  unfold dgVerify
+  simp only []
+  split
+  · rename_i ch hr
+    obtain ⟨hm, hd, hs1⟩ := respond_challenge_withDigest hok hr
+    rw [hs1]
+    refine ⟨hj, fun _ => ⟨?_, hl.dg_ok, ?_⟩⟩
+    · intro res hmem
+      obtain ⟨s', hs', hpl, _⟩ := hl.pw_ok res hmem
+      rw [hs] at hs'; injection hs' with hs'; subst hs'
+      rw [hm] at hpl; cases hpl
+    · intro s' hs'
+      injection hs' with hs'; subst hs'
+      exact { step2 := fun _ _ => hu hd, step1 := fun _ h => by simp at h, pos := fun _ => by simp }
+  · exact inv_failClose _ _ _ hj
+
+theorem inv_deliverReply (fresh : List Char) (x : Conn) (i : Nat) (h : ConnInv cfg A H x) (hx : x.closed = false)
+    (hA1 : ∀ u p, H (.creds u p) → cfg.check u p = .ok → A u)
+    (hA2 : ∀ u sec q, H (.dresp u sec q) → cfg.digestOf u = .digest sec → A u) :
+    ConnInv cfg A H (deliverReply cfg fresh x i).conn := by
+  have hl := h.live hx
+  unfold deliverReply
+  split
+  · exact h
+  · rename_i pd hpd
+    have hmem : pd ∈ x.pending := List.mem_of_getElem? hpd
+    simp only []
+    have hl0 : Live cfg A H { x with pending := x.pending.eraseIdx i } :=
+      hl.congr (fun e he => List.mem_of_mem_eraseIdx he) rfl
+    split
+    · exact inv_ubRes _ h.jid_ok
+    · rename_i s hs
+      split
+      · rename_i res
+        obtain ⟨s', hs', hpl, hstep, hres, hH⟩ := hl.pw_ok res hmem
+        rw [hs] at hs'; injection hs' with hs'; subst hs'
+        cases res with
+        | ok => exact inv_authSuccess fresh _ s.user _ (hA1 _ _ hH hres.symm) (fun _ => hl0)
+        | bad => exact inv_failClose _ _ _ h.jid_ok
+        | temp => exact inv_failClose _ _ _ h.jid_ok
+      · rename_i res u sec
+        obtain ⟨hres, q, hH⟩ := hl.dg_ok res u sec hmem
+        cases res with
+        | temp => exact inv_failClose _ _ _ h.jid_ok
+        | digest d =>
+          refine inv_dgVerify _ s (some d) u sec h.jid_ok hl0 hs ?_
+          intro hd; injection hd with hd
+          exact hA2 u sec q hH (by rw [← hres, hd])
+        | nouser =>
+          refine inv_dgVerify _ s none u sec h.jid_ok hl0 hs ?_
+          intro hd; cases hd
+
+end handlers3
+
+
+section handlers4
+variable {cfg : Cfg} {A : List Char → Prop} {H : Payload → Prop}
+
+theorem inv_gate (x : Conn) (r : CRes) (h : ConnInv cfg A H x) (hr : ConnInv cfg A H r.conn) :
+    ConnInv cfg A H (gate x r).conn := by
+  unfold gate
+  split
+  · exact h
+  · split
+    · exact hr
+    · exact h.congr rfl (fun _ he => he) rfl rfl
+
+theorem inv_clientGate (x : Conn) (r : CRes) (h : ConnInv cfg A H x)
+    (hr : x.jid ≠ [] → ConnInv cfg A H r.conn)
+    (hpre : cfg.fixPreauth = true ∨ x.jid ≠ []) : ConnInv cfg A H (clientGate cfg x r).conn := by
+  unfold clientGate
+  split
+  · exact inv_disconnect _ _ h.jid_ok
+  · rename_i hc
+    apply hr
+    rcases hpre with hf | hj
+    · intro hj; exact hc ⟨hf, hj⟩
+    · exact hj
+
+/-- **one connection step preserves the invariant**, provided the two safety conditions hold for this step -/
+theorem inv_connStep (fresh : List Char) (x : Conn) (ev : Ev) (h : ConnInv cfg A H x)
+    (hpre : cfg.fixPreauth = true ∨ (isClientStanza ev = true → x.jid ≠ []))
+    (hrep : cfg.fixReply = true ∨ (isElement ev = true → x.pending = []))
+    (hev : ∀ p, ev.payload = some p → H p)
+    (hA1 : ∀ u p, H (.creds u p) → cfg.check u p = .ok → A u)
+    (hA2 : ∀ u sec q, H (.dresp u sec q) → cfg.digestOf u = .digest sec → A u) :
+    ConnInv cfg A H (connStep cfg fresh x ev).conn := by
+  unfold connStep
+  split
+  · exact h
+  · rename_i hc
+    have hx : x.closed = false := by simpa using hc
+    cases ev with
+    | deliver i => exact inv_deliverReply fresh x i h hx hA1 hA2
+    | openStream to =>
+      simp only []
+      split
+      · exact h
+      · exact inv_openStream x to h (hrep.imp id (fun f => f rfl))
+    | auth v2 m p b => exact inv_gate x _ h (inv_authStep x v2 m p b h (hrep.imp id (fun f => f rfl)) (hev p rfl))
+    | response v2 p => exact inv_gate x _ h (inv_responseStep fresh x v2 p h hx (hev p rfl))
+    | abort v2 =>
+      apply inv_gate x _ h
+      split
+      · exact h.congr rfl (fun _ he => he) rfl rfl
+      · exact h
+    | closeStream => exact inv_gate x _ h (inv_disconnect _ _ h.jid_ok)
+    | bind res =>
+      apply inv_gate x _ h
+      apply inv_clientGate x _ h _ (hpre.imp id (fun f => f rfl))
+      intro hj
+      obtain ⟨u, hu, hjid⟩ := h.jid_ok hj
+      exact ⟨fun _ => ⟨u, hu, hjid.bind _⟩, fun hcl => (h.live hx).congr (fun _ he => he) rfl⟩
+    | session =>
+      apply inv_gate x _ h
+      exact inv_clientGate x _ h (fun _ => h) (hpre.imp id (fun f => f rfl))
+    | stanza st =>
+      apply inv_gate x _ h
+      apply inv_clientGate x _ h _ (hpre.imp id (fun f => f rfl))
+      intro _
+      unfold clientStanza
+      split <;> exact h
+
+end handlers4
+
+
+/-! ### the invariant over whole runs -/
+
+/-- connection `c` has sent the SASL payload `p` -/
+def Sent (hist : List (Nat × Ev)) (c : Nat) (p : Payload) : Prop := ∃ ev, (c, ev) ∈ hist ∧ ev.payload = some p
+
+def ServInv (cfg : Cfg) (hist : List (Nat × Ev)) (s : Server) : Prop :=
+  ∀ c, ConnInv cfg (Approved cfg hist c) (Sent hist c) (s.conns c)
+
+theorem approved_of_creds {cfg : Cfg} {hist : List (Nat × Ev)} {c : Nat} (u p : List Char)
+    (h : Sent hist c (.creds u p)) (hok : cfg.check u p = .ok) : Approved cfg hist c u := by
+  obtain ⟨ev, hm, hp⟩ := h
+  exact ⟨ev, hm, by simp [Approves, hp, hok]⟩
+
+theorem approved_of_dresp {cfg : Cfg} {hist : List (Nat × Ev)} {c : Nat} (u sec : List Char) (q : Bool)
+    (h : Sent hist c (.dresp u sec q)) (hok : cfg.digestOf u = .digest sec) : Approved cfg hist c u := by
+  obtain ⟨ev, hm, hp⟩ := h
+  exact ⟨ev, hm, by simp [Approves, hp, hok]⟩
+
+theorem servInv_init (cfg : Cfg) : ServInv cfg [] init := by
+  intro c
+  exact ConnInv.of_no_pending rfl (fun h => absurd rfl h) (fun s hs => by cases hs)
+
+theorem servInv_step (cfg : Cfg) (hist : List (Nat × Ev)) (s : Server) (op : Nat × Ev)
+    (hinv : ServInv cfg hist s) (hpre : PreauthSafe cfg s op) (hrep : ReplySafe cfg s op) :
+    ServInv cfg (hist ++ [op]) (step cfg s op).1 := by
+  intro c
+  have hmono : ConnInv cfg (Approved cfg (hist ++ [op]) c) (Sent (hist ++ [op]) c) (s.conns c) :=
+    (hinv c).mono (fun u hu => hu.mono (fun x hx => by simp [hx]))
+      (fun p ⟨ev, hm, hp⟩ => ⟨ev, by simp [hm], hp⟩)
+  have hc := step_conns cfg s op c
+  by_cases hcop : c = op.1
+  · rw [hc.1 hcop]
+    subst hcop
+    apply inv_connStep _ _ _ hmono hpre hrep
+    · intro p hp
+      exact ⟨op.2, by simp, hp⟩
+    · exact fun u p => approved_of_creds u p
+    · exact fun u sec q => approved_of_dresp u sec q
+  · rcases hc.2 hcop with h | h
+    · rw [h]; exact hmono
+    · rw [h]; exact ConnInv.of_closed rfl hmono.jid_ok
+
+theorem servInv_run (cfg : Cfg) : ∀ (ops : List (Nat × Ev)) (hist : List (Nat × Ev)) (s : Server),
+    ServInv cfg hist s → Along cfg (fun s op => PreauthSafe cfg s op ∧ ReplySafe cfg s op) s ops →
+    ServInv cfg (hist ++ ops) (run cfg s ops).1 := by
+  intro ops
+  induction ops with
+  | nil => intro hist s h _; simpa [run] using h
+  | cons op ops ih =>
+    intro hist s h hal
+    have h1 := servInv_step cfg hist s op h hal.1.1 hal.1.2
+    have h2 := ih (hist ++ [op]) _ h1 hal.2
+    simpa [run, List.append_assoc] using h2
+
+/-- with both fixes applied every script is safe -/
+theorem along_of_fixed (cfg : Cfg) (P : Server → Nat × Ev → Prop) (hP : ∀ s op, P s op) :
+    ∀ (ops : List (Nat × Ev)) (s : Server), Along cfg P s ops := by
+  intro ops
+  induction ops with
+  | nil => intro s; trivial
+  | cons op ops ih => intro s; exact ⟨hP s op, ih _⟩
+
+
+
+/-! ### where routed / delivered / answered stanzas come from -/
+
+theorem applyOuts_mem (cfg : Cfg) (c0 : Nat) (o : Out) : ∀ (couts : List COut) (s : Server),
+    o ∈ (applyOuts cfg s c0 couts).2 → ∃ co ∈ couts, ∃ s', o ∈ (applyOut cfg s' c0 co).2 := by
+  intro couts
+  induction couts with
+  | nil => intro s h; simp [applyOuts] at h
+  | cons co rest ih =>
+    intro s h
+    simp only [applyOuts, List.mem_append] at h
+    rcases h with h | h
+    · exact ⟨co, by simp, s, h⟩
+    · obtain ⟨co', hm, s', hs'⟩ := ih _ h
+      exact ⟨co', by simp [hm], s', hs'⟩
+
+/-- a stanza-related server output of a step stems from a stanza the acting connection emitted in that step -/
+theorem applyOut_stanza_origin (cfg : Cfg) (s : Server) (c0 : Nat) (co : COut) (o : Out)
+    (h : o ∈ (applyOut cfg s c0 co).2) :
+    (∀ c st, o = .routed c st → c = c0 ∧ co = .emit st) ∧
+    (∀ src dst st, o = .deliver src dst st → src = c0 ∧ co = .emit st) ∧
+    (∀ src dst e, o = .reply src dst e → src = c0 ∧ ∃ st f cond, co = .emit st ∧ e = .iqError st.id f st.sender cond) := by
+  have none_of : ∀ o' : Out, (∀ c st, o' ≠ .routed c st) → (∀ a b st, o' ≠ .deliver a b st) → (∀ a b e, o' ≠ .reply a b e) →
+      o = o' → _ := fun o' h1 h2 h3 ho =>
+    (⟨fun c st h => absurd (ho ▸ h) (h1 c st), fun a b st h => absurd (ho ▸ h) (h2 a b st),
+      fun a b e h => absurd (ho ▸ h) (h3 a b e)⟩ :
+      (∀ c st, o = .routed c st → c = c0 ∧ co = .emit st) ∧
+      (∀ src dst st, o = .deliver src dst st → src = c0 ∧ co = .emit st) ∧
+      (∀ src dst e, o = .reply src dst e → src = c0 ∧ ∃ st f cond, co = .emit st ∧ e = .iqError st.id f st.sender cond))
+  cases co with
+  | send e =>
+    simp only [applyOut, List.mem_cons, List.not_mem_nil, or_false] at h
+    exact none_of _ (by intros; simp) (by intros; simp) (by intros; simp) h
+  | emit st =>
+    simp only [applyOut, List.mem_cons] at h
+    rcases h with rfl | h
+    · refine ⟨?_, ?_, ?_⟩
+      · intro c st' h; injection h with h1 h2; exact ⟨h1.symm, by rw [h2]⟩
+      · intro _ _ _ h; cases h
+      · intro _ _ _ h; cases h
+    · rcases handleStanza_mem _ _ _ _ _ h with ⟨d, rfl⟩ | ⟨d, f, cond, rfl⟩
+      · refine ⟨?_, ?_, ?_⟩
+        · intro _ _ h; cases h
+        · intro a b st' h; injection h with h1 h2 h3; exact ⟨h1.symm, by rw [h3]⟩
+        · intro _ _ _ h; cases h
+      · refine ⟨?_, ?_, ?_⟩
+        · intro _ _ h; cases h
+        · intro _ _ _ h; cases h
+        · intro a b e h; injection h with h1 h2 h3; exact ⟨h1.symm, st, f, cond, rfl, h3.symm⟩
+  | bound =>
+    simp only [applyOut] at h
+    rcases register_mem _ _ _ h with h | ⟨k, _, h | h | h | ⟨j, h⟩⟩ <;>
+      exact none_of _ (by intros; simp) (by intros; simp) (by intros; simp) h
+  | closed =>
+    simp only [applyOut] at h
+    rcases unregister_mem _ _ _ h with h | h <;>
+      exact none_of _ (by intros; simp) (by intros; simp) (by intros; simp) h
+  | authed j =>
+    simp only [applyOut, List.mem_cons, List.not_mem_nil, or_false] at h
+    exact none_of _ (by intros; simp) (by intros; simp) (by intros; simp) h
+  | ub =>
+    simp only [applyOut, List.mem_cons, List.not_mem_nil, or_false] at h
+    exact none_of _ (by intros; simp) (by intros; simp) (by intros; simp) h
+
+/-- the stanza behind a routed / delivered / answered output: emitted by the acting connection in this step,
+hence stamped with that connection's own jid, which the step leaves unchanged -/
+theorem step_stanza_origin (cfg : Cfg) (s : Server) (op : Nat × Ev) (o : Out) (h : o ∈ (step cfg s op).2)
+    (src : Nat) (st : Stanza)
+    (ho : (∃ c', o = .routed src st ∧ c' = src) ∨ (∃ dst, o = .deliver src dst st) ∨
+          (∃ dst f cond, o = .reply src dst (.iqError st.id f st.sender cond))) :
+    src = op.1 ∧ ∃ st' : Stanza, st'.sender = st.sender ∧
+      (st'.sender = (s.conns src).jid ∨ st'.sender = bareOf (s.conns src).jid) ∧
+      ((step cfg s op).1.conns src).jid = (s.conns src).jid := by
+  unfold step at h
+  obtain ⟨co, hco, s', hs'⟩ := applyOuts_mem cfg op.1 o _ _ h
+  have horig := applyOut_stanza_origin cfg s' op.1 co o hs'
+  have key : ∀ st0, co = .emit st0 → src = op.1 → st0.sender = st.sender →
+      src = op.1 ∧ ∃ st' : Stanza, st'.sender = st.sender ∧
+      (st'.sender = (s.conns src).jid ∨ st'.sender = bareOf (s.conns src).jid) ∧
+      ((step cfg s op).1.conns src).jid = (s.conns src).jid := by
+    intro st0 hce hsrc hsend
+    rw [hce] at hco
+    have hem := connStep_emit cfg (freshRes s.gen) (s.conns op.1) op.2 st0 hco
+    refine ⟨hsrc, st0, hsend, by rw [hsrc]; exact hem.1, ?_⟩
+    rw [hsrc, (step_conns cfg s op op.1).1 rfl, hem.2]
+  rcases ho with ⟨_, rfl, _⟩ | ⟨dst, rfl⟩ | ⟨dst, f, cond, rfl⟩
+  · obtain ⟨h1, h2⟩ := horig.1 _ _ rfl
+    exact key st h2 h1 rfl
+  · obtain ⟨h1, h2⟩ := horig.2.1 _ _ _ rfl
+    exact key st h2 h1 rfl
+  · obtain ⟨h1, st0, f0, cond0, h2, h3⟩ := horig.2.2 _ _ _ rfl
+    injection h3 with _ _ hto _
+    exact key st0 h2 h1 hto.symm
+
+
+/-- under the pre-authentication safety condition a connection only emits stanzas once it has a jid -/
+theorem connStep_emit_jid_ne (cfg : Cfg) (fresh : List Char) (x : Conn) (ev : Ev) (st : Stanza)
+    (hsafe : cfg.fixPreauth = true ∨ (isClientStanza ev = true → x.jid ≠ []))
+    (h : COut.emit st ∈ (connStep cfg fresh x ev).outs) : x.jid ≠ [] := by
+  rcases shape_connStep cfg fresh x ev hsafe with hq | ha | hj
+  · exact absurd h (not_emit_of_quiet hq st)
+  · exact absurd h (not_emit_of_authHead ha st)
+  · exact hj
+
+/-! ### decidability of the safety conditions (so that concrete scripts can be checked by evaluation) -/
+
+instance (cfg : Cfg) (s : Server) (op : Nat × Ev) : Decidable (PreauthSafe cfg s op) := by
+  unfold PreauthSafe; exact inferInstance
+
+instance (cfg : Cfg) (s : Server) (op : Nat × Ev) : Decidable (ReplySafe cfg s op) := by
+  unfold ReplySafe; exact inferInstance
+
+instance alongDecidable (cfg : Cfg) (P : Server → Nat × Ev → Prop) [∀ s op, Decidable (P s op)] :
+    ∀ (s : Server) (ops : List (Nat × Ev)), Decidable (Along cfg P s ops)
+  | _, [] => isTrue trivial
+  | s, op :: ops =>
+    match (inferInstance : Decidable (P s op)), alongDecidable cfg P (step cfg s op).1 ops with
+    | isTrue h1, isTrue h2 => isTrue ⟨h1, h2⟩
+    | isFalse h1, _ => isFalse fun h => h1 h.1
+    | _, isFalse h2 => isFalse fun h => h2 h.2
+
 end Qx.C16
